@@ -129,11 +129,30 @@ class ExecBase:
             if attr == "name":
                 raise UnsupportedError("enum .name")
         if v.ty.kind == "ref":
+            if S.RECORDS.get(v.ty.name) is not None and S.RECORDS[v.ty.name].union:
+                return self.union_read(v, attr, st)
             rec, fty = S.lookup_field(v.ty.name, attr)
             if rec is not None:
                 return st.heap.read(rec, attr, fty, v.t)
             raise UnsupportedError(f"{v.ty.name} has no modelled field {attr}")
         raise UnsupportedError(f"attribute {attr} on {v.ty}")
+
+    def union_read(self, v, attr, st):
+        """Field read through a reference of a union record: dispatch on the class tag recorded when the member-typed reference
+        was widened (ops.widen_list_to_union); the last member is the default branch."""
+        members = S.RECORDS[v.ty.name].union
+        reads = []
+        for m in members:
+            rec, fty = S.lookup_field(m, attr)
+            if rec is None:
+                raise UnsupportedError(f"attribute .{attr} of union record {v.ty.name}: member {m} has no such field")
+            reads.append(st.heap.read(rec, attr, fty, v.t))
+        if len({repr(r.ty) for r in reads}) != 1:
+            raise UnsupportedError(f"attribute .{attr} of union record {v.ty.name}: member field types differ")
+        out = reads[-1]
+        for i in range(len(members) - 2, -1, -1):
+            out = V.ite(O.CLS_TAG(v.t) == i, reads[i], out)
+        return out
 
     def real_attrs(self, recname):
         """Attribute names the real class provides (for attribute-safety)."""
